@@ -438,7 +438,12 @@ impl RenderContext {
 
         let header = frame.header();
         // Check if LF frame exists
-        if header.flags.use_lf_frame() && self.lf_frame[header.lf_level as usize] == usize::MAX {
+        if header.flags.use_lf_frame()
+            && self
+                .lf_frame
+                .get(header.lf_level as usize)
+                .is_none_or(|&idx| idx == usize::MAX)
+        {
             return Err(Error::UninitializedLfFrame(header.lf_level));
         }
 
@@ -748,7 +753,11 @@ impl RenderContext {
             return Err(Error::IncompleteFrame);
         }
 
-        let lf_frame_idx = self.lf_frame[header.lf_level as usize];
+        let lf_frame_idx = if header.flags.use_lf_frame() {
+            self.lf_frame[header.lf_level as usize]
+        } else {
+            usize::MAX
+        };
         if header.flags.use_lf_frame() {
             self.spawn_renderer(lf_frame_idx);
         }
